@@ -33,6 +33,10 @@
 
 
 
+#include <xalanc/DOMSupport/DOMServices.hpp>
+
+
+
 #include "XPathExecutionContext.hpp"
 
 
@@ -356,9 +360,45 @@ getNormalizedOwner(const XalanNode&     node)
 {
     const XalanNode::NodeType   theType = node.getNodeType();
 
-    return theType == XalanNode::DOCUMENT_NODE ||
-           theType == XalanNode::DOCUMENT_FRAGMENT_NODE ?
-                &node : node.getOwnerDocument();
+    if (theType == XalanNode::DOCUMENT_NODE ||
+        theType == XalanNode::DOCUMENT_FRAGMENT_NODE)
+    {
+        return &node;
+    }
+    else
+    {
+        const XalanDocument* const  theOwner = node.getOwnerDocument();
+
+        if (theOwner == 0 || theOwner->getFirstChild() != 0)
+        {
+            return theOwner;
+        }
+        else
+        {
+            // The owner document is just a factory for the nodes of result
+            // tree fragments.  The tree such a node belongs to is its
+            // document fragment (see also getKeyNode() in StylesheetRoot.cpp):
+            // the fragment and its nodes go together, and the nodes of
+            // different fragments do not.
+            const XalanNode*    theCurrent = &node;
+
+            for (;;)
+            {
+                const XalanNode* const  theParent =
+                    DOMServices::getParentOfNode(*theCurrent);
+
+                if (theParent == 0)
+                {
+                    break;
+                }
+
+                theCurrent = theParent;
+            }
+
+            return theCurrent->getNodeType() == XalanNode::DOCUMENT_FRAGMENT_NODE ?
+                        theCurrent : static_cast<const XalanNode*>(theOwner);
+        }
+    }
 }
 
 
